@@ -117,7 +117,7 @@ func ZVC01Samples(src func(n int) []byte) map[string][]byte {
 		supportedSignatureAlgorithms: schemes(1 + n(6)), supportedSignatureAlgorithmsCert: schemes(1 + n(4)),
 		secureRenegotiationSupported: true, secureRenegotiation: src(n(12)),
 		extendedMasterSecret: n(1) == 1, sctEnabled: n(1) == 1, scts: n(1) == 1,
-		alpnProtocols: []string{"h2", "http/1.1"},
+		alpnProtocols:     []string{"h2", "http/1.1"},
 		supportedVersions: []uint16{VersionTLS13, VersionTLS12}, cookie: src(1 + n(10)),
 		keyShares:     []keyShare{{group: X25519, data: src(32)}, {group: CurveP256, data: src(65)}},
 		earlyData:     n(1) == 1,
